@@ -15,6 +15,15 @@ Definition copy_within_spec (l : list A) (first last dest : nat) : list A :=
 Definition copy_backward_within_spec (l : list A) (first last dlast : nat) : list A :=
   firstn (dlast - (last - first)) l ++ sub l first last ++ skipn dlast l.
 
+(* an algorithm that writes the values xs through an output iterator starting at position pos of the
+   destination d: exactly [pos, pos + |xs|) is overwritten, the returned iterator is pos + |xs| *)
+Definition emit_spec (d : list A) (pos : nat) (xs : list A) : list A * nat :=
+  (firstn pos d ++ xs ++ skipn (pos + length xs) d, pos + length xs).
+
+(* copy_backward: the values end at dLast: exactly [dLast - |xs|, dLast) is overwritten *)
+Definition emit_backward_spec (d : list A) (dlast : nat) (xs : list A) : list A * nat :=
+  (firstn (dlast - length xs) d ++ xs ++ skipn dlast d, dlast - length xs).
+
 (* [alg.nth.element]: for every i in [first, nth) and j in [nth, last): !comp( *j, *i) *)
 Definition nth_element_post (lt : A -> A -> bool) (l : list A) (nth : nat) : Prop :=
   forall i j x y, i < nth -> nth <= j -> get l i = Some x -> get l j = Some y -> lt y x = false.
